@@ -90,7 +90,7 @@ func c07(r *h.Result, rng *h.Rng, tier string, replay string) error {
 	if tier != "quick" {
 		n = 10000
 	}
-	r.Rule = "text: grammar-directed log queries (1–4 matchers, 0–4 stages: line filters |= != |~ !~, label filters with and/or/parentheses, string and numeric comparisons; hostile strings) × random planner contexts (windows, limits 0/1/100/5000, direction, type, cluster); non-trivial = more than one matcher or at least one stage; distinct by (query, context). sem: queries of ≤3 matchers/≤3 stages × contexts × databases of 1–6 streams (labels drawn from the query's vocabulary, index rows on day−1/day/day+1 with gaps, ≤8 samples per stream at the window edges, mixed types); non-trivial = the expected result is non-empty"
+	r.Rule = "text: grammar-directed log queries (1–4 matchers, 0–4 stages: line filters |= != |~ !~, label filters with and/or/parentheses, string and numeric comparisons; hostile strings) × random planner contexts (windows, limits 0/1/100/5000, direction, type, cluster); non-trivial = more than one matcher or at least one stage; distinct by (query, context). sem: queries of ≤3 matchers/≤3 stages × contexts × databases of 1–6 streams (labels drawn from the query's vocabulary, index rows on day−1/day/day+1 with gaps, ≤8 samples per stream at the window edges, mixed types); non-trivial = the expected result is non-empty. Every second query of text/sem/textx and two of three of semx are DERIVED FROM THE GRAMMAR (c07gram.go: the participle rules of logql_parser walked by reflection; parenthesis depth 0–3 drawn per filter, and/or/juxtaposed chains, quoted and ticked strings, every operator; label of a comparison drawn by class — stored, dropped, extracted only, stored and extracted, absent — ; pipelines starting with none / drop / parser / both; databases steered so that every comparison is true of some streams and false of others); keys gram:* = productions × position × depth measured on the real AST, an emitted-production obligation"
 	covPlain, plainAtoms := &c07gCov{}, map[string]int{}
 	if err := c07TextCov(r, rng.Fork(), n, covPlain); err != nil {
 		return err
